@@ -10,6 +10,7 @@ import (
 	"net/http"
 	"os"
 	"path/filepath"
+	"sort"
 	"strconv"
 	"strings"
 	"sync"
@@ -36,7 +37,22 @@ func idOf(t *vegeta.Target) int {
 	if id%4 == 0 && string(t.Body) != "body:"+want {
 		return -1
 	}
+	// the default header X-Tag: a, b, c (given to the http and JSON targeters) merged with the target's own X-Tag: t<id>
+	tag := append([]string{}, t.Header["X-Tag"]...)
+	sort.Strings(tag)
+	if len(tag) != 4 || tag[0] != "a" || tag[1] != "b" || tag[2] != "c" || tag[3] != "t"+want {
+		return -1
+	}
 	return id
+}
+
+// defaults is the default header as repeated -header flags build it: values added one at a time, so the slice has spare capacity.
+func defaults() http.Header {
+	h := http.Header{}
+	for _, v := range []string{"a", "b", "c"} {
+		h["X-Tag"] = append(h["X-Tag"], v)
+	}
+	return h
 }
 
 func TestDrv_C15(t *testing.T) {
@@ -57,8 +73,8 @@ func TestDrv_C15(t *testing.T) {
 			enc := vegeta.NewJSONTargetEncoder(&jsonDoc)
 			for i := 1; i <= n; i++ {
 				tg := vegeta.Target{Method: []string{"GET", "POST", "PUT"}[i%3], URL: fmt.Sprintf("http://h.example/t%d", i),
-					Header: http.Header{"X-Id": {strconv.Itoa(i)}, "X-Pad": {strings.Repeat("p", i%90) + "-" + strconv.Itoa(i)}}}
-				fmt.Fprintf(&httpDoc, "%s %s\nX-Id: %d\nX-Pad: %s\n", tg.Method, tg.URL, i, tg.Header["X-Pad"][0])
+					Header: http.Header{"X-Id": {strconv.Itoa(i)}, "X-Pad": {strings.Repeat("p", i%90) + "-" + strconv.Itoa(i)}, "X-Tag": {"t" + strconv.Itoa(i)}}}
+				fmt.Fprintf(&httpDoc, "%s %s\nX-Id: %d\nX-Pad: %s\nX-Tag: t%d\n", tg.Method, tg.URL, i, tg.Header["X-Pad"][0], i)
 				if i%4 == 0 {
 					tg.Body = []byte("body:" + strconv.Itoa(i))
 					if i <= 400 {
@@ -69,6 +85,8 @@ func TestDrv_C15(t *testing.T) {
 				}
 				httpDoc.WriteString("\n")
 				must(enc.Encode(&tg))
+				tg.Header = tg.Header.Clone()
+				tg.Header["X-Tag"] = []string{"a", "b", "c", "t" + strconv.Itoa(i)} // the static targeter gets the merged targets
 				tgts[i-1] = tg
 			}
 			for _, callers := range callerss {
@@ -89,17 +107,17 @@ func TestDrv_C15(t *testing.T) {
 						must(err)
 						defer f.Close()
 						if kind == "jsonfile" {
-							tgr = vegeta.NewJSONTargeter(f, nil, nil)
+							tgr = vegeta.NewJSONTargeter(f, nil, defaults())
 						} else {
-							tgr = vegeta.NewHTTPTargeter(f, nil, nil)
+							tgr = vegeta.NewHTTPTargeter(f, nil, defaults())
 						}
 					case "http":
 						if n > 400 {
 							continue // body files only exist for the first 400 targets
 						}
-						tgr = vegeta.NewHTTPTargeter(bytes.NewReader(httpDoc.Bytes()), nil, nil)
+						tgr = vegeta.NewHTTPTargeter(bytes.NewReader(httpDoc.Bytes()), nil, defaults())
 					case "json":
-						tgr = vegeta.NewJSONTargeter(bytes.NewReader(jsonDoc.Bytes()), nil, nil)
+						tgr = vegeta.NewJSONTargeter(bytes.NewReader(jsonDoc.Bytes()), nil, defaults())
 					case "static":
 						tgr = vegeta.NewStaticTargeter(tgts...)
 					}
